@@ -421,6 +421,9 @@ pub fn channels_json(fx: &NodeFx) -> Value {
                                              "id0": hex::encode(c.id0.as_slice()),
                                              "id": c.id.as_ref().map(|i| hex::encode(i.as_slice())),
                                              "estate": serde_json::to_value(&c.enforcement_state).unwrap(),
+                                             // the same state through its Debug form: independent of the serde
+                                             // attributes / persistence model the store uses
+                                             "estate_dbg": format!("{:?}", c.enforcement_state),
                                              "setup": format!("{:?}", c.setup),
                                              "forget": c.monitor.forget_seen()}),
         };
@@ -432,7 +435,19 @@ pub fn channels_json(fx: &NodeFx) -> Value {
 pub fn tracker_json(fx: &NodeFx) -> Value {
     let t = fx.node.get_tracker();
     let e = ChainTrackerEntry::from(&*t);
-    serde_json::to_value(&e).unwrap()
+    let mut v = serde_json::to_value(&e).unwrap();
+    // a second projection taken directly from the tracker's public fields through Debug: the entry above goes
+    // through the very conversion and serde attributes the store uses, so a field dropped THERE would be missing
+    // on the running side as well
+    let listeners: Vec<Value> = t
+        .listeners
+        .iter()
+        .map(|(k, (l, s))| json!([format!("{:?}", k), format!("{:?}", &*l.get_state()), format!("{:?}", s)]))
+        .collect();
+    let headers: Vec<String> = t.headers.iter().map(|h| format!("{:?}/{:?}", h.0, h.1)).collect();
+    v["direct"] = json!({"headers": headers, "tip": format!("{:?}/{:?}", t.tip.0, t.tip.1), "height": t.height,
+                         "network": format!("{:?}", t.network), "listeners": listeners});
+    v
 }
 
 pub fn full_state_json(fx: &NodeFx) -> Value {
